@@ -622,6 +622,18 @@ func (g *ExprGen) Gen(in []*ref.V, depth int) *ref.Expr {
 		return g.path(in, 1+r.IntN(3))
 	case c < 19: // variables
 		name := []string{"x", "y", "v"}[r.IntN(3)]
+		if r.IntN(3) == 0 && len(in) > 0 && len(g.eval(ref.Self(), in)) > 0 {
+			// (only where the context is known to hold a node: what a variable yields on an EMPTY context is a corner of its own)
+			// an inner binding of the SAME name ends with its scope: the outer value is read again behind it
+			inner := &ref.Expr{Op: ref.OpAs, L: g.Gen(in, depth-1), S: name, R: &ref.Expr{Op: ref.OpVar, S: name}}
+			var body *ref.Expr
+			if r.IntN(2) == 0 {
+				body = ref.Union(inner, &ref.Expr{Op: ref.OpVar, S: name})
+			} else {
+				body = &ref.Expr{Op: ref.OpCollect, L: ref.Union(&ref.Expr{Op: ref.OpVar, S: name}, ref.Union(inner, &ref.Expr{Op: ref.OpVar, S: name}))}
+			}
+			return &ref.Expr{Op: ref.OpAs, L: g.Gen(in, depth-1), S: name, R: body}
+		}
 		bind := g.Gen(in, depth-1)
 		vals := g.eval(bind, in)
 		g.vars = append(g.vars, name)
